@@ -44,3 +44,41 @@ Definition show_cli_line (k : skeleton) (line : string) : string :=
   let r := toy_cli k file exprs in
   "exit=" ++ show_nat (exit_status string r) ++ "|out=" ++ join rs (stdout string r)
           ++ "|err=" ++ (match stderr string r with [] => "0" | _ => "1" end).
+
+(* ---- phase 2: arguments and the non-interactive REPL.  Case line fields:
+        F<file> E<expr>* G<content of init.nbt> n (= --no-init) i (= --inspect-interactively)
+        Z<stdin line>*; the miniature programs always run with --no-prelude ---- *)
+Definition code_is_blank (c : code) : bool := match c with Some [] => true | _ => false end.
+Definition code_is_quit (c : code) : bool :=
+  match c with
+  | Some [SOther (TExpr (EAtom (AId x)))] => orb (String.eqb x "quit") (String.eqb x "exit")
+  | _ => false
+  end.
+
+Definition toy_cli_full (k : skeleton) (no_init insp : bool) (init_file file : option code)
+           (exprs : option (list code)) (stdin : list code) :=
+  cli_full string String.eqb code tstmt (timporter []) tparse tA tB tC (list tstmt) typed eA eB eC
+           result string transform check run k 1 join_codes string
+           (fun p => p)
+           (fun v : result => match fst v with Some x => [show_value x] | None => [] end)
+           (fun _ => "<diagnostic>") "Interpreter stopped"
+           (Some []) "Interpreter error in Prelude code" "Interpreter error in user initialization code"
+           "Interpreter stopped due to error" code_is_blank code_is_quit
+           (config_of_args true no_init insp) fresh init_file file exprs stdin.
+
+Fixpoint has_field (tag : ascii) (fs : list string) : bool :=
+  match fs with
+  | [] => false
+  | f :: r => orb (Ascii.eqb (field_tag f) tag) (has_field tag r)
+  end.
+
+Definition show_cli_full_line (k : skeleton) (line : string) : string :=
+  let fs := split (ascii_of_nat 9) line in
+  let file := option_map parse_code (first_field "F"%char fs) in
+  let es := all_fields "E"%char fs in
+  let exprs := match es with [] => None | _ => Some (map parse_code es) end in
+  let init := option_map parse_code (first_field "G"%char fs) in
+  let stdin := map parse_code (all_fields "Z"%char fs) in
+  let r := toy_cli_full k (has_field "n"%char fs) (has_field "i"%char fs) init file exprs stdin in
+  "exit=" ++ show_nat (exit_status string r) ++ "|out=" ++ join rs (stdout string r)
+          ++ "|err=" ++ (match stderr string r with [] => "0" | _ => "1" end).
